@@ -307,12 +307,38 @@ def judge_callstack_owner():
     return []
 
 
+def judge_multiline_body():
+    """a body that contains a line feed (a thread name, a looked-up path): under every setting of the header columns the line is the
+    header columns followed by the SAME body - nothing is inserted into the body."""
+    recs = [R('TRACE_STRING_THREADNAME', 0, tid=1, ts=5, data=b'two\nlines\n\nend'.ljust(32, b'\0'))] + \
+           [B.rec(6 + i, tid=1, debugid=E.n2i('VFS_LOOKUP') | q, data=d) for i, (d, q) in enumerate(B.lookup_chunks(0x77, '/tmp/two\nlines.txt'))]
+    blob = B.v2([(1, 10, 'A')], 0, recs)
+    try:
+        bodies = lines(blob, 'formatted_traces', [False] * 6, False)
+        for cfg in itertools.product((False, True), repeat=3):
+            full = [cfg[0], False, False, cfg[1], cfg[2], False]
+            got = lines(blob, 'formatted_traces', full, False)
+            if len(got) != len(bodies) or not all(g.endswith(b) for g, b in zip(got, bodies)):
+                return [('columns-do-not-compose:formatted_traces:body-with-line-feeds', {'switches': full, 'got': got[:2], 'bodies': bodies[:2]})]
+    except Exception as ex:
+        return [('formatting-raised:' + type(ex).__name__, {'error': repr(ex)[:200], 'api': 'formatted_traces'})]
+    if not bodies or 'two\nlines\n\nend' not in bodies[0]:
+        return [('harness:multiline-body-not-rendered', {'bodies': bodies[:2]})]
+    return []
+
+
 def log_dump():
     strings = {'hello world': 1, 'procname': 2}
     evs = [{'cm': 1, 't': 'logEvent', 's': 1, 'tid': 5, 'ns': 5, 'mct': 6, 'b': b'B' * 16, 'piu': b'P' * 16,
             'ud': {'sec': 1600000000, 'usec': 123456}, 'utz': {'mw': 0, 'dt': 0}, 'p': 2, 'pid': 9},
            {'cm': 1, 't': 'logEvent', 's': 2, 'tid': 0, 'ns': 5, 'mct': 7, 'b': b'B' * 16, 'piu': b'P' * 16,
-            'ud': {'sec': 1600000001, 'usec': 0}, 'utz': {'mw': 0, 'dt': 0}}]
+            'ud': {'sec': 1600000001, 'usec': 0}, 'utz': {'mw': 0, 'dt': 0}},
+           # records that name a process but carry no process id: the column names what the dump declares for the THREAD (thread 1 is in the
+           # thread map, thread 77 is declared nowhere)
+           {'cm': 1, 't': 'logEvent', 's': 3, 'tid': 1, 'ns': 5, 'mct': 8, 'b': b'B' * 16, 'piu': b'P' * 16,
+            'ud': {'sec': 1600000002, 'usec': 0}, 'utz': {'mw': 0, 'dt': 0}, 'p': 2},
+           {'cm': 1, 't': 'logEvent', 's': 4, 'tid': 77, 'ns': 5, 'mct': 9, 'b': b'B' * 16, 'piu': b'P' * 16,
+            'ud': {'sec': 1600000003, 'usec': 0}, 'utz': {'mw': 0, 'dt': 0}, 'p': 2}]
     return B.v3([(1, 10, 'A')], [[]], [B.v3_block(B.TAG_LOG_STRINGS, B.bplist({'StringIndex': strings})),
                                       B.v3_block(B.TAG_LOG_EVENTS, B.bplist({'Events': evs}))])
 
@@ -324,8 +350,10 @@ def judge_logs():
         col = lines(blob, 'formatted_logs', [True] * 6, True)
     except Exception as ex:
         return ('formatting-raised:' + type(ex).__name__, {'api': 'formatted_logs', 'error': repr(ex)[:200]})
-    if len(plain) != 2 or 'hello world' not in plain[0] or 'procname(9)' not in plain[0] or '2020-09-13 12:26:40.123456' not in plain[0]:
+    if len(plain) != 4 or 'hello world' not in plain[0] or 'procname(9)' not in plain[0] or '2020-09-13 12:26:40.123456' not in plain[0]:
         return ('log-line-content', {'lines': plain})
+    if ' A(10) ' not in plain[2] or ' Error: tid 77 ' not in plain[3]:
+        return ('log-process-column-not-the-declared-process', {'lines': plain[2:]})
     if not any('\x1b[' in x for x in col):
         return ('harness:colour-not-forced', {})
     stripped = [ANSI.sub('', x) for x in col]
@@ -531,6 +559,9 @@ class C14(Check):
             acc.case(nontrivial=True, transitions=2)
             if bad:
                 acc.violation(bad[0], {'kind': 'logs'}, bad[1])
+            for sig, detail in judge_multiline_body():
+                acc.violation(sig, {'kind': 'multiline-body'}, detail)
+            acc.case(nontrivial=True, transitions=18, state=h64('multiline-body'))
             for sig, detail in judge_callstack_owner():
                 acc.violation(sig, {'kind': 'callstack-owner'}, detail)
             acc.case(nontrivial=True, transitions=20, state=h64('callstack-owner'))
@@ -566,6 +597,8 @@ class C14(Check):
                 bad = (bad[0] + ':after-a-failed-dump', bad[1])
         elif k == 'callstacks':
             bad, _ = judge_compose(callstack_dump(), 'formatted_callstacks')
+        elif k == 'multiline-body':
+            return judge_multiline_body()
         elif k == 'callstack-owner':
             return judge_callstack_owner()
         elif k == 'colour-bodies':
